@@ -856,7 +856,7 @@ def judge(plan, result, refs):
         'max_ntasks': ntasks,
         'cache_seam_missing': 0 if result.get('cache_seam') else 1,
         'states': set(result.get('states', [])),
-        'post_fault_compared': 0,
+        'post_fault_compared': 0, 'limit_compared': 0, 'limit_evaluations_compared': 0,
     }
     if sched.get('errors'):
         from sim.common import ForkError
@@ -911,6 +911,9 @@ def judge(plan, result, refs):
         stats['compared'] += 1
         if faulted_before.get(tid):
             stats['post_fault_compared'] += 1
+        if ops[idx]['op'] == 'limit':
+            stats['limit_compared'] += 1
+            stats['limit_evaluations_compared'] += sum(1 for st in ops[idx]['steps'] if 'x' in st)
         nt = is_nontrivial(ops, idx, sched, ntasks)
         if nt:
             stats['compared_nontrivial'] += 1
@@ -1053,6 +1056,8 @@ def evidence(tier, seed, by_mode, det, n_viol, known_hits, errors, wall):
             'compared_calls': s.get('compared', 0),
             'compared_nontrivial_calls': s.get('compared_nontrivial', 0),
             'post_fault_compared_calls': s.get('post_fault_compared', 0),
+            'limit_residue_histories_compared': s.get('limit_compared', 0),
+            'limit_residue_evaluations_compared': s.get('limit_evaluations_compared', 0),
             'faulted_calls_not_compared': s.get('faulted_calls', 0),
             'reference_evaluations': s.get('ref_evals', 0), 'reference_memo_hits': s.get('ref_memo_hits', 0),
             'yield_points': s.get('points', 0), 'preemptions': s.get('switches', 0),
